@@ -18,6 +18,8 @@ import (
 // the property written over those bits.
 
 type c02Pol struct {
+	extra   int  // extra constant clause, see c02Extra
+	before  bool // the extra clause comes before the main condition
 	id      types.PolicyID
 	forbid  bool
 	scoped  bool // policy has principal == User::"a"
@@ -54,12 +56,55 @@ func c02Build(n int) ([]c02Pol, types.Record, types.EntityUID, bool) {
 			a = a.PrincipalEq(types.NewEntityUID("User", "a"))
 		}
 		cond := ast.Context().Access(c02Key(i, "e")).And(ast.Long(1).LessThan(ast.String("x"))).Or(ast.Context().Access(c02Key(i, "s")))
+		// an additional constant clause (foldable at compile time), before or after the main one
+		if i == 0 || (i == 1 && vrt.Thorough()) {
+			p.extra = vrt.Choice("extra-clause", len(c02Extra))
+			p.before = p.extra != 0 && vrt.Choice("extra-first", 2) == 1
+		}
+		if p.before {
+			a = c02Extra[p.extra].add(a)
+		}
 		a = a.When(cond)
+		if !p.before {
+			a = c02Extra[p.extra].add(a)
+		}
 		p.pos = Position{Filename: "f.cedar", Offset: 10 * (i + 1), Line: i + 1, Column: i + 2}
 		(*internalast.Policy)(a).Position = internalast.Position(p.pos)
 		p.pol = NewPolicyFromAST(a)
 	}
 	return pols, types.NewRecord(ctx), principal, isA
+}
+
+// c02Extra: constant clauses and whether they hold.
+var c02Extra = []struct {
+	add   func(*ast.Policy) *ast.Policy
+	holds bool
+}{
+	{func(p *ast.Policy) *ast.Policy { return p }, true},
+	{func(p *ast.Policy) *ast.Policy { return p.Unless(ast.True()) }, false},
+	{func(p *ast.Policy) *ast.Policy { return p.Unless(ast.False()) }, true},
+	{func(p *ast.Policy) *ast.Policy { return p.When(ast.True()) }, true},
+	{func(p *ast.Policy) *ast.Policy { return p.Unless(ast.Long(1).LessThan(ast.Long(2))) }, false},
+	{func(p *ast.Policy) *ast.Policy { return p.When(ast.Long(2).LessThan(ast.Long(1))) }, false},
+	{func(p *ast.Policy) *ast.Policy { return p.Unless(ast.Set(ast.String("a")).Contains(ast.String("b"))) }, true},
+}
+
+// c02Outcome: conditions are evaluated in order and stop at the first one that is false or errors.
+func c02Outcome(p *c02Pol, match bool) (sat, errs bool) {
+	if !match {
+		return false, false
+	}
+	extraHolds := c02Extra[p.extra].holds
+	if p.before && !extraHolds {
+		return false, false
+	}
+	if vrt.ConcretizeBool(p.e) {
+		return false, true
+	}
+	if !vrt.ConcretizeBool(p.s) {
+		return false, false
+	}
+	return extraHolds, false
 }
 
 func c02Check(pols []c02Pol, isA bool, dec Decision, diag Diagnostic) {
@@ -70,8 +115,7 @@ func c02Check(pols []c02Pol, isA bool, dec Decision, diag Diagnostic) {
 	for i := range pols {
 		p := &pols[i]
 		match := !p.scoped || vrt.ConcretizeBool(isA)
-		errs := match && vrt.ConcretizeBool(p.e)
-		sat := match && !errs && vrt.ConcretizeBool(p.s)
+		sat, errs := c02Outcome(p, match)
 		if errs {
 			wantError[p.id] = true
 		}
@@ -85,7 +129,7 @@ func c02Check(pols []c02Pol, isA bool, dec Decision, diag Diagnostic) {
 	for i := range pols {
 		p := &pols[i]
 		match := !p.scoped || vrt.ConcretizeBool(isA)
-		sat := match && !vrt.ConcretizeBool(p.e) && vrt.ConcretizeBool(p.s)
+		sat, _ := c02Outcome(p, match)
 		if sat && (p.forbid == anyForbid) {
 			wantReason[p.id] = true
 		}
